@@ -166,6 +166,7 @@ func checkC17(c *Ctx) {
 	c.codecLengthTables()
 	// a packet that wraps around the end of the outgoing ring is encoded into a scratch buffer that holds it
 	c.scratchHoldsTheMessage()
+	c.writerScratchConfined()
 	// nothing but the sender goroutine writes to the socket once it runs
 	c.connackBeforeStart()
 	c.socketWrittenOnlyByHandshake()
